@@ -1,6 +1,7 @@
 // Package simtime replaces package time in the scratch copy.  The library has
-// no timers today; this shim keeps a logical clock so that a future timer is
-// simulated rather than real.  Sleep advances the logical clock and yields.
+// no timers today; this shim keeps every clock read, sleep and timer on the
+// simulator's logical clock (sim/sched/timers.go) so that a change that
+// introduces one is simulated rather than real.
 package simtime
 
 import (
@@ -34,12 +35,16 @@ var (
 )
 
 var epoch = real.Date(2026, 1, 1, 0, 0, 0, 0, real.UTC)
-var offset Duration
 
-// Reset puts the logical clock back to the epoch (between runs).
-func Reset() { offset = 0 }
+// Reset is kept for the harness (the clock lives in the world of each run).
+func Reset() {}
 
-func Now() Time                                { return epoch.Add(offset) }
+func Now() Time {
+	if w := sched.Cur(); w != nil {
+		return epoch.Add(w.Now())
+	}
+	return epoch
+}
 func Since(t Time) Duration                    { return Now().Sub(t) }
 func Until(t Time) Duration                    { return t.Sub(Now()) }
 func Unix(s, n int64) Time                     { return real.Unix(s, n) }
@@ -49,12 +54,115 @@ func Date(y int, m Month, d, h, mi, s, ns int, loc *Location) Time {
 	return real.Date(y, m, d, h, mi, s, ns, loc)
 }
 
-// Sleep yields to the scheduler and advances the logical clock.
+// Sleep blocks the task until the logical clock has advanced by d.
 func Sleep(d Duration) {
 	w := sched.Cur()
 	if w == nil || w.Inert() {
 		return
 	}
-	w.Yield(&sched.Op{Kind: "sleep", Path: d.String()})
-	offset += d
+	t := w.AfterFunc(d, func() {})
+	w.Yield(&sched.Op{Kind: "sleep", Path: d.String(), Enabled: t.Fired})
+}
+
+// After mirrors time.After.
+func After(d Duration) <-chan Time { return NewTimer(d).C }
+
+// Tick mirrors time.Tick.
+func Tick(d Duration) <-chan Time { return NewTicker(d).C }
+
+// Timer mirrors time.Timer.
+type Timer struct {
+	C <-chan Time
+	c chan Time
+	h *sched.Timer
+	f func()
+}
+
+func (t *Timer) arm(d Duration) {
+	w := sched.Cur()
+	if w == nil || w.Inert() {
+		return
+	}
+	t.h = w.AfterFunc(d, func() {
+		if t.f != nil {
+			w.SpawnAfter(t.h.Proc(), "timerfunc", t.h.VC(), t.f)
+			return
+		}
+		select {
+		case t.c <- epoch.Add(w.Now()):
+		default:
+		}
+	})
+}
+
+// NewTimer mirrors time.NewTimer.
+func NewTimer(d Duration) *Timer {
+	c := make(chan Time, 1)
+	t := &Timer{C: c, c: c}
+	t.arm(d)
+	return t
+}
+
+// AfterFunc mirrors time.AfterFunc: f runs as a task of the creating process.
+func AfterFunc(d Duration, f func()) *Timer {
+	t := &Timer{f: f}
+	t.arm(d)
+	return t
+}
+
+func (t *Timer) Stop() bool {
+	if t.h == nil {
+		return false
+	}
+	return t.h.Stop()
+}
+
+func (t *Timer) Reset(d Duration) bool {
+	was := t.Stop()
+	t.arm(d)
+	return was
+}
+
+// Ticker mirrors time.Ticker.
+type Ticker struct {
+	C       <-chan Time
+	c       chan Time
+	h       *sched.Timer
+	d       Duration
+	stopped bool
+}
+
+func (t *Ticker) arm() {
+	w := sched.Cur()
+	if w == nil || w.Inert() || t.stopped {
+		return
+	}
+	t.h = w.AfterFunc(t.d, func() {
+		select {
+		case t.c <- epoch.Add(w.Now()):
+		default:
+		}
+		t.arm()
+	})
+}
+
+func NewTicker(d Duration) *Ticker {
+	c := make(chan Time, 1)
+	t := &Ticker{C: c, c: c, d: d}
+	t.arm()
+	return t
+}
+
+func (t *Ticker) Stop() {
+	t.stopped = true
+	if t.h != nil {
+		t.h.Stop()
+	}
+}
+
+func (t *Ticker) Reset(d Duration) {
+	t.Stop()
+	t.stopped = false
+	t.d = d
+	t.arm()
 }
